@@ -97,6 +97,9 @@ func c11Templates() []c11Template {
 		{name: "sort", instantOnly: true, build: func(x refmodel.Expr) refmodel.Expr { return va("sort", nil, x) }},
 		{name: "sort_desc", instantOnly: true, build: func(x refmodel.Expr) refmodel.Expr { return va("sort_desc", nil, x) }},
 		{name: "sum by(a)(sum by(a,b))", build: func(x refmodel.Expr) refmodel.Expr { return va("sum", g(false, "a"), va("sum", g(false, "a", "b"), x)) }},
+		{name: "sum by(a)(sum by(b,a))", build: func(x refmodel.Expr) refmodel.Expr { return va("sum", g(false, "a"), va("sum", g(false, "b", "a"), x)) }},
+		{name: "max by(b)(sum by(c,b,a))", build: func(x refmodel.Expr) refmodel.Expr { return va("max", g(false, "b"), va("sum", g(false, "c", "b", "a"), x)) }},
+		{name: "count by(b,a)(min by(b,a))", build: func(x refmodel.Expr) refmodel.Expr { return va("count", g(false, "b", "a"), va("min", g(false, "b", "a"), x)) }},
 		{name: "sum by(b)(sum by(a))", build: func(x refmodel.Expr) refmodel.Expr { return va("sum", g(false, "b"), va("sum", g(false, "a"), x)) }},
 		{name: "max without(b)(sum by(a,b))", build: func(x refmodel.Expr) refmodel.Expr { return va("max", g(true, "b"), va("sum", g(false, "a", "b"), x)) }},
 		{name: "topk(1, sum by(a))", build: func(x refmodel.Expr) refmodel.Expr { return tk("topk", 1, nil, va("sum", g(false, "a"), x)) }},
@@ -219,10 +222,10 @@ func c11Run(r *vkit.Run) {
 						continue
 					}
 					c11Check(r, c11Input{Series: sub, Unwrap: unwrap, Query: t.name, Range: rg, Bound: bound}, nil)
-					if unwrap && !rg {
+					if unwrap {
 						// the range aggregation itself carries a grouping clause the outer ones must respect
 						for _, inner := range []string{"by(a)", "by(a,b)", "without(a)", "without(v,c)"} {
-							c11Check(r, c11Input{Series: sub, Unwrap: true, Query: t.name, Bound: bound, Inner: inner}, nil)
+							c11Check(r, c11Input{Series: sub, Unwrap: true, Query: t.name, Range: rg, Bound: 0, Inner: inner}, nil)
 						}
 					}
 				}
